@@ -655,7 +655,7 @@ def outside_programs(rng, n):
     out = []
     for k in range(n):
         tag, src, args, ret = OUTSIDE_TEMPLATES[k % len(OUTSIDE_TEMPLATES)]
-        if k >= len(OUTSIDE_TEMPLATES):
+        if k >= len(OUTSIDE_TEMPLATES) and "Qlist" not in src:
             # vary widths / constants
             w = rng.choice([2, 3, 4])
             src = src.replace("Qint[4]", f"Qint[{w}]").replace("Qint[2]", f"Qint[{rng.choice([2, 3])}]")
